@@ -65,7 +65,9 @@ StepCmd(mm, e) ==
         \* observed deadline still fitting the OLD time-to-live and the two asked deadlines lying that close
         oldT == IF mm.kv[c.k].p THEN mm.kv[c.k].ttl ELSE NoTtl
         Abs(z) == IF z < 0 THEN 0 - z ELSE z
-        tol == IF after.ttl.hi - after.ttl.lo >= 60000 \/ oldT.hi - oldT.lo >= 60000 THEN 61000 ELSE 2000
+        \* (minute unit: the engine compares the two deadlines after each was rounded up to a whole minute, so terms asked up to
+        \*  60 s + 60 s apart can be "equal": PSETEX k 65629229 then EXPIRE k 65536 are 93 s apart and both within one minute step)
+        tol == IF after.ttl.hi - after.ttl.lo >= 60000 \/ oldT.hi - oldT.lo >= 60000 THEN 120000 ELSE 2000
         keptOld == oldT.on /\ after.ttl.on /\ ~after.ttl.ms /\ e.ttl.held /\ TtlFits(oldT, mm.now, e.ttl.unlimited, e.ttl.left_ms)
                    /\ Abs(oldT.lo - after.ttl.lo) <= tol
         ttlCls == IF keptOld THEN "update-within-tolerance-of-current-deadline-dropped"
